@@ -1,8 +1,8 @@
 //! C08 Long-term credentials: challenge, retry and authenticated delivery.
 
 use super::explore::{self, bfs, Event, Monitor, Step, Target, TimeDetail};
-use super::server::{accept, challenge_of, lt_key, Chal, Challenge, NonceKind, PasKind, RClass, RMac, Reply, Verdict};
-use super::world::{CallRes, Cfg, ErrK, Mech, OEv, Transport, Who, World, PASS};
+use super::server::{accept_for, challenge_of, lt_key_for, Chal, Challenge, NonceKind, PasKind, RClass, RMac, Reply, Verdict};
+use super::world::{CallRes, Cfg, ErrK, Mech, OEv, Transport, Who, World};
 use crate::refs::codec::{self, ref_parse, L};
 use crate::util::{Finish, Report, RunCtx, Shared};
 use rayon::prelude::*;
@@ -62,18 +62,18 @@ fn phase_name(p: Phase) -> &'static str {
 }
 
 /// candidate keys a reply may legitimately be authenticated with under challenge `ch`
-fn candidate_keys(ch: &Challenge) -> Vec<Vec<u8>> {
+fn candidate_keys(ch: &Challenge, cr: &super::world::Creds) -> Vec<Vec<u8>> {
     match &ch.offered {
-        None => vec![lt_key(1, &ch.realm, PASS)],
-        Some(list) => list.iter().filter(|(a, _)| *a == 1 || *a == 2).map(|(a, _)| lt_key(*a, &ch.realm, PASS)).collect(),
+        None => vec![lt_key_for(cr.user, 1, &ch.realm, cr.pass_key)],
+        Some(list) => list.iter().filter(|(a, _)| *a == 1 || *a == 2).map(|(a, _)| lt_key_for(cr.user, *a, &ch.realm, cr.pass_key)).collect(),
     }
 }
 
 /// does the delivered buffer carry an integrity attribute of the kind the challenge calls for that verifies
 /// under one of the candidate keys?
-fn reply_verifies(bytes: &[u8], ch: &Challenge) -> bool {
+fn reply_verifies(bytes: &[u8], ch: &Challenge, cr: &super::world::Creds) -> bool {
     let Ok(p) = ref_parse(bytes) else { return false };
-    let keys = candidate_keys(ch);
+    let keys = candidate_keys(ch, cr);
     let want_sha = ch.offered.is_some();
     p.tlvs.iter().any(|t| {
         if want_sha {
@@ -101,7 +101,7 @@ impl Monitor for Mon {
         if let (Event::Send { .. }, CallRes::SendOk(i)) = (st.ev, &st.obs.res) {
             if let Some(ch) = &challenge_before {
                 let consistent = ch.offered.is_some() == ch.pa_bit;
-                let v = accept(&w.reqs[*i].first, ch);
+                let v = accept_for(&w.reqs[*i].first, ch, &w.cfg.creds());
                 self.acceptable[*i] = if consistent { Some(v == Verdict::Accept) } else { None };
                 send_verdict = Some((*i, v));
             }
@@ -139,7 +139,7 @@ impl Monitor for Mon {
         // --- every emitted packet: the password never appears ---------------------------------------------------
         for e in &st.obs.events {
             if let OEv::Out { bytes, .. } = e {
-                if contains(bytes, PASS.as_bytes()) {
+                if contains(bytes, w.cfg.creds().pass.as_bytes()) || contains(bytes, w.cfg.creds().pass_key.as_bytes()) {
                     rep.violate("password-on-the-wire", "", replay());
                 }
             }
@@ -255,7 +255,7 @@ impl Monitor for Mon {
                 }
                 RClass::Success | RClass::Error(_) if awaiting_target => {
                     let Target::Req(i) = to else { return };
-                    let verifies = challenge_before.as_ref().map(|ch| reply_verifies(bytes, ch)).unwrap_or(false);
+                    let verifies = challenge_before.as_ref().map(|ch| reply_verifies(bytes, ch, &w.cfg.creds())).unwrap_or(false);
                     let delivered = delivered_now.iter().any(|d| d.0 == *i);
                     let cls = if reply.class == RClass::Success { "success" } else { "error" };
                     if delivered && !verifies {
@@ -305,7 +305,7 @@ impl Monitor for Mon {
             }
         }
         let g = self.gen % 3;
-        let ch = |realm: bool, nonce: NonceKind, pas: PasKind| Chal { realm, nonce, pas, realm_v: 0 };
+        let ch = |realm: bool, nonce: NonceKind, pas: PasKind| Chal { realm, nonce, pas, realm_v: 0, order: 0 };
         let mut replies: Vec<Reply> = vec![
             Reply::plain(RClass::Error(401)).with_chal(ch(true, NonceKind::Plain(g), PasKind::Absent)),
             Reply::plain(RClass::Error(401)).with_chal(ch(true, NonceKind::Cookie(true, false, g), PasKind::Md5Sha256)),
@@ -318,8 +318,11 @@ impl Monitor for Mon {
             Reply::plain(RClass::Error(401)).with_chal(ch(true, NonceKind::Cookie(true, false, g), PasKind::Absent)),
             // a challenge for the same realm spelled in another case, and for another realm (keys and USERHASH are
             // case-sensitive in the realm: nothing derived for an earlier realm may be reused)
-            Reply::plain(RClass::Error(401)).with_chal(Chal { realm: true, nonce: NonceKind::Cookie(true, true, g), pas: PasKind::Md5Sha256, realm_v: 1 }),
-            Reply::plain(RClass::Error(401)).with_chal(Chal { realm: true, nonce: NonceKind::Plain(g), pas: PasKind::Absent, realm_v: 2 }),
+            Reply::plain(RClass::Error(401)).with_chal(Chal { realm: true, nonce: NonceKind::Cookie(true, true, g), pas: PasKind::Md5Sha256, realm_v: 1, order: 0 }),
+            Reply::plain(RClass::Error(401)).with_chal(Chal { realm: true, nonce: NonceKind::Plain(g), pas: PasKind::Absent, realm_v: 2, order: 0 }),
+            // the same challenge attributes in the opposite order (PASSWORD-ALGORITHMS, NONCE, REALM)
+            Reply::plain(RClass::Error(401)).with_chal(Chal { realm: true, nonce: NonceKind::Cookie(true, false, g), pas: PasKind::Md5Sha256, realm_v: 0, order: 1 }),
+            Reply::plain(RClass::Error(401)).with_chal(Chal { realm: true, nonce: NonceKind::Cookie(true, true, g), pas: PasKind::Sha256Md5, realm_v: 0, order: 1 }),
             Reply::plain(RClass::Success),
             Reply::plain(RClass::Success).with_mac(RMac::Mi),
             Reply::plain(RClass::Success).with_mac(RMac::Sha),
@@ -343,6 +346,9 @@ impl Monitor for Mon {
         replies.push(Reply::plain(RClass::Error(438)).with_chal(ch(false, nk, pk)));
         replies.push(Reply::plain(RClass::Error(438)).with_chal(ch(false, nk, pk)).with_mac(RMac::Mi));
         replies.push(Reply::plain(RClass::Error(438)).with_chal(ch(false, nk, pk)).with_mac(RMac::Sha));
+        if pk != PasKind::Absent {
+            replies.push(Reply::plain(RClass::Error(438)).with_chal(Chal { realm: false, nonce: nk, pas: pk, realm_v: 0, order: 1 }).with_mac(RMac::Sha));
+        }
         replies.push(Reply::plain(RClass::Error(438)).with_chal(ch(false, NonceKind::Absent, PasKind::Absent)));
         if pk != PasKind::Absent {
             replies.push(Reply::plain(RClass::Error(438)).with_chal(ch(false, nk, PasKind::Absent)));
@@ -375,10 +381,24 @@ pub fn run(ctx: &RunCtx) -> i32 {
     ]);
     let shared = Shared::new();
     let cfgs = vec![
-        Cfg { transport: Transport::Unreliable { rto_ms: 100, gran_ms: 1, rm: 2, rc: 2 }, mech: Mech::LongTerm, fingerprint: false, max_tx: 10 },
-        Cfg { transport: Transport::Reliable { timeout_ms: 300 }, mech: Mech::LongTerm, fingerprint: false, max_tx: 10 },
+        Cfg { transport: Transport::Unreliable { rto_ms: 100, gran_ms: 1, rm: 2, rc: 2 }, mech: Mech::LongTerm, fingerprint: false, max_tx: 10, cred: 0, method: 1 },
+        Cfg { transport: Transport::Reliable { timeout_ms: 300 }, mech: Mech::LongTerm, fingerprint: false, max_tx: 10, cred: 0, method: 1 },
     ];
     let exchanges = if thorough { 6 } else { 5 };
+    // other credential sets, one exchange shorter: a 70-byte user name / 129-byte password, and the RFC 5769 Katakana user
+    // name with a password that OpaqueString enforcement rewrites
+    let extra = vec![
+        Cfg { transport: Transport::Unreliable { rto_ms: 100, gran_ms: 1, rm: 2, rc: 2 }, mech: Mech::LongTerm, fingerprint: false, max_tx: 10, cred: 2, method: 1 },
+        Cfg { transport: Transport::Reliable { timeout_ms: 300 }, mech: Mech::LongTerm, fingerprint: false, max_tx: 10, cred: 1, method: 0x003 },
+    ];
+    extra.par_iter().for_each(|cfg| {
+        let mut r = Report::new();
+        let st = bfs(cfg, &apps, &Mon::new(exchanges - 1), 2 * (exchanges - 1) + 1, 1_500_000, &mut r);
+        r.states = st.states;
+        r.transitions = st.transitions;
+        r.sym("other-credential-sets");
+        shared.merge(r);
+    });
     let per: Vec<_> = cfgs
         .par_iter()
         .map(|cfg| {
@@ -398,8 +418,8 @@ pub fn run(ctx: &RunCtx) -> i32 {
         rep,
         Finish {
             level: "model_checking",
-            rule: format!("breadth-first exploration of the real long-term client on both transports, up to {} request/response exchanges (depth {}), over {{Send (empty application list, or one that pre-populates USERNAME / REALM / NONCE / PASSWORD-ALGORITHM(S) / USERHASH / both integrity attributes), Indicate, Timer, AdvanceTo(beyond), Deliver of 24 server behaviours: 401 x {{plain nonce; the realm in another letter case with cookie nonce + anonymity; another realm; cookie nonce with password-algorithms bit and [MD5,SHA256] / [MD5] / [SHA256,MD5]+anonymity / unsupported list; anonymity only; missing realm; missing nonce; algorithms bit without the attribute}}, 438 with a new nonce x {{no MAC, MI, SHA256}} and without nonce, success x {{none, MI, SHA256, MI / SHA256 under another password}}, errors 400/420/500 with and without integrity, an authenticated indication}}. Replies are built by the reference codec and keyed from the request's PASSWORD-ALGORITHM; server replies are not restricted to what an RFC server would send next. Monitor: first request free of the eight credential attributes; a complete 401 / a 438 with nonce yields Retry; every later request is judged by the independent RFC 8489 9.2.4 acceptance function against the most recent challenge (username or userhash, realm, nonce, password algorithms echo and choice, MAC under MD5/SHA-256(user:realm:password)) and must use SHA-256 integrity iff algorithms were offered; success and ordinary error responses are delivered only if a MAC of the right kind verifies, and are delivered when the request was acceptable and the MAC verifies; indications refused both ways; the password's bytes occur in no packet", exchanges, 2 * exchanges + 1),
-            assumptions: vec!["single user / password; three realms (one differing from the first only in letter case)".into(), "a 438 carries a nonce with the same cookie bits as the challenge in force (and repeats PASSWORD-ALGORITHMS when the bit is set); a reply to a request sent under an older challenge is only required not to be delivered unauthenticated".into(), "inconsistent challenges (PASSWORD-ALGORITHMS without the cookie bit or vice versa) are explored for robustness but requests are not judged against them".into()],
+            rule: format!("breadth-first exploration of the real long-term client on both transports, up to {} request/response exchanges (depth {}), over {{Send (empty application list, or one that pre-populates USERNAME / REALM / NONCE / PASSWORD-ALGORITHM(S) / USERHASH / both integrity attributes), Indicate, Timer, AdvanceTo(beyond), Deliver of 27 server behaviours (two 401 challenges and one 438 also with their attributes in the opposite order): 401 x {{plain nonce; the realm in another letter case with cookie nonce + anonymity; another realm; cookie nonce with password-algorithms bit and [MD5,SHA256] / [MD5] / [SHA256,MD5]+anonymity / unsupported list; anonymity only; missing realm; missing nonce; algorithms bit without the attribute}}, 438 with a new nonce x {{no MAC, MI, SHA256}} and without nonce, success x {{none, MI, SHA256, MI / SHA256 under another password}}, errors 400/420/500 with and without integrity, an authenticated indication}}. Replies are built by the reference codec and keyed from the request's PASSWORD-ALGORITHM; server replies are not restricted to what an RFC server would send next. Monitor: first request free of the eight credential attributes; a complete 401 / a 438 with nonce yields Retry; every later request is judged by the independent RFC 8489 9.2.4 acceptance function against the most recent challenge (username or userhash, realm, nonce, password algorithms echo and choice, MAC under MD5/SHA-256(user:realm:password)) and must use SHA-256 integrity iff algorithms were offered; success and ordinary error responses are delivered only if a MAC of the right kind verifies, and are delivered when the request was acceptable and the MAC verifies; indications refused both ways; the password's bytes occur in no packet", exchanges, 2 * exchanges + 1),
+            assumptions: vec!["three user / password sets (short ASCII; 70-byte user name with 129-byte password; non-ASCII user name with a password rewritten by OpaqueString enforcement), the latter two one exchange shallower; three realms (one differing from the first only in letter case)".into(), "a 438 carries a nonce with the same cookie bits as the challenge in force (and repeats PASSWORD-ALGORITHMS when the bit is set); a reply to a request sent under an older challenge is only required not to be delivered unauthenticated".into(), "inconsistent challenges (PASSWORD-ALGORITHMS without the cookie bit or vice versa) are explored for robustness but requests are not judged against them".into()],
             required_symbols: vec!["bfs-configs", "first-request-clean", "retry-after-401", "retry-after-438", "request-accepted-by-reference-server", "authenticated-response-delivered", "unauthenticated-response-rejected", "indication-refused", "indication-not-delivered"],
             min_outcomes: 8,
             exhaustive: true,
